@@ -46,7 +46,7 @@ func (t *Tport) Deliver(c context.Context, b []byte, to *url.URL) error {
 	if r := reqOf(c); r != nil {
 		rid = r.ID
 	}
-	a.Deliveries = append(a.Deliveries, Delivery{Req: rid, Box: t.Box, Payload: append([]byte(nil), b...), To: []string{us(to)}, LogPos: idx})
+	a.Deliveries = append(a.Deliveries, Delivery{Req: rid, Box: t.Box, Payload: append([]byte(nil), b...), Held: b, To: []string{us(to)}, LogPos: idx})
 	if a.DeliverErr {
 		return a.fail(idx, c, fmt.Errorf("deliver failed"))
 	}
@@ -67,7 +67,7 @@ func (t *Tport) BatchDeliver(c context.Context, b []byte, recipients []*url.URL)
 	if r := reqOf(c); r != nil {
 		rid = r.ID
 	}
-	a.Deliveries = append(a.Deliveries, Delivery{Req: rid, Box: t.Box, Payload: append([]byte(nil), b...), To: to, LogPos: idx, Batch: true})
+	a.Deliveries = append(a.Deliveries, Delivery{Req: rid, Box: t.Box, Payload: append([]byte(nil), b...), Held: b, To: to, LogPos: idx, Batch: true})
 	if a.DeliverErr {
 		return a.fail(idx, c, fmt.Errorf("batch deliver failed"))
 	}
